@@ -558,7 +558,15 @@ def rule_snapshot_fields(ctx):
     r(ctx)
 
 
+def rule_clone_complete(ctx):
+    """`each match's score is the snapshot pattern's score`: the snapshot's pattern is a clone_from copy of the worker's,
+    which is a clone_from copy of the user's; a hand-written clone_from must copy every field (shared with C19)."""
+    from props.c19 import rule_clone_complete as r
+    r(ctx)
+
+
 def rules(ctx):
+    ctx.run_rule("C06.clone-complete", rule_clone_complete)
     ctx.run_rule("C06.snapshot-fields", rule_snapshot_fields)
     ctx.run_rule("C06.unchecked-feed", rule_unchecked_feed)
     ctx.run_rule("C06.inflight-order", rule_inflight_order)
